@@ -187,6 +187,9 @@ def transport_specs():
     grp = (("55", None), ("453", ((("448", None), ("452", None)), (("448", None),))), ("58", None))
     if "453" in gen.TABLE.rg and gen.well_formed(gen.fill(grp)) is None:
         out.append(gen.spec_of(grp))
+    # frames larger than any stream buffer / high-water mark: still ONE well-formed frame per hand-over
+    for n in (70000, 200001):
+        out.append(gen.spec_of((("11", None), ("58", "y" * n), ("55", None))))
     for a in gen.NON_ASCII_C02:
         out.append(gen.spec_of((("58", a),)))
     for a in gen.NON_ASCII_C02[:6]:
